@@ -5,7 +5,7 @@ patch="$(realpath "$1")"; id="$2"; mode="${3:-quick}"
 cd /verif
 if ! git -C /repo diff --quiet; then echo "refusing: /repo has uncommitted changes"; exit 3; fi
 git -C /repo apply "$patch" || { echo "RESULT $(basename "$patch") $id apply-failed"; exit 3; }
-out="$(./check "$id" "$mode" 2>&1)"; code=$?
+out="$(./check "$id" "$mode" --no-evidence 2>&1)"; code=$?
 git -C /repo checkout -- .
 viol="$(echo "$out" | grep -a '^VIOLATION' | head -1)"
 cls="$(echo "$out" | grep -a '^violation at' | head -1 | cut -c1-200)"
